@@ -243,7 +243,7 @@ static std::string whitenOp(Args& A, bool zca, Trainer* sessionTrainer, Session*
 	std::vector<double> ym, yv; plainMeanVar(y, r, ym, yv);
 	double wscale = 0; for(std::size_t a = 0; a < r; ++a) for(std::size_t j = 0; j < T.d; ++j) wscale = std::max(wscale, std::fabs(W(a, j)));
 	// rank of the input covariance by plain Gaussian elimination with full pivoting
-	std::size_t rank = 0;
+	std::size_t rank = 0; double condEst = 1;       // largest diagonal entry / smallest accepted pivot
 	{ std::vector<double> xm, xv; plainMeanVar(T.rows, T.d, xm, xv);
 	  std::vector<std::vector<double> > Cx(T.d, std::vector<double>(T.d, 0.0)); double big = 0;
 	  for(std::size_t i = 0; i < T.n; ++i) for(std::size_t a = 0; a < T.d; ++a) for(std::size_t c = 0; c < T.d; ++c) Cx[a][c] += (T.rows[i][a] - xm[a]) * (T.rows[i][c] - xm[c]) / (double)T.n;
@@ -253,7 +253,7 @@ static std::string whitenOp(Args& A, bool zca, Trainer* sessionTrainer, Session*
 		std::size_t pr = 0, pc = 0; double best = 0;
 		for(std::size_t a = 0; a < T.d; ++a) if(!usedR[a]) for(std::size_t c = 0; c < T.d; ++c) if(!usedC[c] && std::fabs(Cx[a][c]) > best){ best = std::fabs(Cx[a][c]); pr = a; pc = c; }
 		if(!(best > 1e-9 * (big + 1e-300))) break;
-		usedR[pr] = usedC[pc] = true; ++rank;
+		usedR[pr] = usedC[pc] = true; ++rank; condEst = std::max(condEst, big / best);
 		for(std::size_t a = 0; a < T.d; ++a) if(a != pr){ double f = Cx[a][pc] / Cx[pr][pc]; for(std::size_t c = 0; c < T.d; ++c) Cx[a][c] -= f * Cx[pr][c]; }
 	  } }
 	if(!zca && r != rank) o.fail("whitening-rank");
@@ -266,7 +266,9 @@ static std::string whitenOp(Args& A, bool zca, Trainer* sessionTrainer, Session*
 			UnlabeledData<RealVector> other = T.unlabeled(parts[p]);
 			LinearModel<> m2; Trainer t2(target); t2.train(m2, other);
 			RealMatrix G2 = prod(trans(m2.matrix()), m2.matrix());
-			if(!closeMat(G, G2, 1e-8) || (zca && !closeMat(W, m2.matrix(), 1e-8))) o.fail("batch-dependent");
+			// the covariances of two partitions differ by rounding (relative 1e-16), which Cov^-1 / Cov^-1/2 amplify by the condition number
+			double tolB = std::max(1e-8, 1e-12 * condEst);
+			if(!closeMat(G, G2, tolB) || (zca && !closeMat(W, m2.matrix(), tolB))) o.fail("batch-dependent");
 		}
 	}
 	std::vector<std::vector<double> > Cy(r, std::vector<double>(r, 0.0));
